@@ -114,14 +114,18 @@ pub fn measure_tables() -> Result<TableDomain, String> {
                 let v: Vec<String> = ["gamma", "delta", "zeta"].iter().filter(|t| !denied.contains(t)).map(|s| s.to_string()).collect();
                 allowed.insert(n, v);
             }
-        } else if line.contains("DANGER") {
-            if line.contains('γ') {
-                denied.push("gamma");
-            } else if line.contains('δ') {
-                denied.push("delta");
-            } else if line.contains('ζ') {
-                denied.push("zeta");
-            } else {
+        } else if cur.is_some() && !line.trim().is_empty() {
+            // anything a reader prints while it is constructed is taken as a look-ahead diagnostic, whatever its
+            // wording; the table is recognised by the code's letter or name
+            let l = line.to_lowercase();
+            let mut any = false;
+            for (keys, t) in [(["γ", "gamma"], "gamma"), (["δ", "delta"], "delta"), (["ζ", "zeta"], "zeta")] {
+                if keys.iter().any(|k| l.contains(k)) {
+                    denied.push(t);
+                    any = true;
+                }
+            }
+            if !any {
                 // an unrecognised diagnostic: be conservative, deny everything for this reader
                 denied.extend(["gamma", "delta", "zeta"]);
             }
